@@ -363,13 +363,15 @@ Definition set_rs_short (rs : bytes) : rs_outcome :=
 
 (* Only the LENGTHS of p.fields and p.fieldsIsTrueStr matter for "does getField index out of
    range".  In CSV/TSV mode csvSplitter.scan stores the parsed fields of EVERY record it reads
-   into p.fields -- also for `getline var`, which must not touch $0 -- while p.fieldsIsTrueStr
-   is only rebuilt by ensureFields when p.haveFields is false. *)
+   into p.fields; p.fieldsIsTrueStr is only rebuilt by ensureFields when p.haveFields is false.
+   For the main loop that is the new current record; interp.getline (every getline form) saves
+   p.fields before the read and restores it afterwards, so a record read into a variable leaves
+   the current record's fields alone. *)
 Record fstate : Type := { fs_fields : Z; fs_true : Z; fs_have : bool }.
 
 Inductive fop : Type :=
 | ORecord (n : Z)        (* the main loop reads a record with n fields: fields stored, haveFields := false *)
-| OGetlineVar (n : Z)    (* getline var / getline arr[i] reads a record with n fields: ONLY p.fields changes *)
+| OGetlineVar (n : Z)    (* getline var / getline arr[i] reads a record with n fields: p.fields written, then restored *)
 | ONF                    (* NF (or any use of the fields): ensureFields *)
 | OField (i : Z).        (* $i with i >= 1 *)
 
@@ -382,7 +384,10 @@ Definition f_ensure (s : fstate) : fstate :=
 Definition f_step (s : fstate) (o : fop) : option fstate :=
   match o with
   | ORecord n => Some {| fs_fields := n; fs_true := fs_true s; fs_have := false |}
-  | OGetlineVar n => Some {| fs_fields := n; fs_true := fs_true s; fs_have := fs_have s |}
+  | OGetlineVar n =>
+      let saved := fs_fields s in                                               (* fields := p.fields *)
+      let s1 := {| fs_fields := n; fs_true := fs_true s; fs_have := fs_have s |} in   (* the splitter's store *)
+      Some {| fs_fields := saved; fs_true := fs_true s1; fs_have := fs_have s1 |}     (* deferred p.fields = fields *)
   | ONF => Some (f_ensure s)
   | OField i =>
       let s' := f_ensure s in
